@@ -18,12 +18,71 @@ type FuncResult struct {
 	Unsupported string
 	Notes       []string
 	Enc         *Enc
+	candFail    map[CandKey]bool
 }
 
 var levelNames = []string{"S", "T", "F"}
 
-// Encode generates the obligations of one function at one facet level.
-func (E *Engine) Encode(name string, level int) (res *FuncResult) {
+// Encode generates the obligations of one function at one facet level. Candidate invariants are first
+// filtered to the inductive ones (Houdini): all are assumed, the ones not re-established are dropped, to a fix-point.
+func (E *Engine) Encode(name string, level int) *FuncResult {
+	ct := E.S.Contracts[name]
+	fn := E.P.Funcs[name]
+	if ct == nil || len(ct.LoopCand) == 0 || fn == nil {
+		return E.encodeOnce(name, level, nil)
+	}
+	key := fmt.Sprintf("%s@%d", name, level)
+	if E.candCache == nil {
+		E.candCache = map[string]map[CandKey]bool{}
+	}
+	active, ok := E.candCache[key]
+	if !ok {
+		active = map[CandKey]bool{}
+		li := E.loops(fn)
+		for _, l := range li.loops {
+			for _, cd := range ct.LoopCand {
+				if (cd.Loop == 0 || cd.Loop == l.ord) && facetLevel[cd.Facet] <= level {
+					active[CandKey{cd, l.ord}] = true
+				}
+			}
+		}
+		for round := 0; round < 20 && len(active) > 0; round++ {
+			r := E.encodeOnce(name, level, active)
+			if r.Unsupported != "" {
+				break
+			}
+			var obls []*Obligation
+			for _, o := range r.Enc.Obls {
+				if o.Cand != nil {
+					obls = append(obls, o)
+				}
+			}
+			drop := map[CandKey]bool{}
+			for k := range r.candFail {
+				drop[k] = true
+			}
+			saved := Solvers
+			Solvers = Solvers[:1]
+			rs := DischargeAll(obls, 3, 16, false)
+			Solvers = saved
+			for _, x := range rs {
+				if x.Status != "discharged" {
+					drop[*x.O.Cand] = true
+				}
+			}
+			if len(drop) == 0 {
+				break
+			}
+			for k := range drop {
+				delete(active, k)
+			}
+		}
+		E.candCache[key] = active
+	}
+	return E.encodeOnce(name, level, active)
+}
+
+func (E *Engine) encodeOnce(name string, level int, cands map[CandKey]bool) (res *FuncResult) {
 	res = &FuncResult{Func: name, Level: levelNames[level]}
 	fn := E.P.Funcs[name]
 	if fn == nil {
@@ -32,7 +91,9 @@ func (E *Engine) Encode(name string, level int) (res *FuncResult) {
 	}
 	enc := NewEnc()
 	res.Enc = enc
-	fx := &fx{E: E, enc: enc, root: name, entryHeap: map[string]Term{}, strs: map[string]Value{}, floats: map[string]Term{}, globalVal: map[*ssa.Global]Value{}}
+	fx := &fx{E: E, enc: enc, root: name, entryHeap: map[string]Term{}, strs: map[string]Value{}, floats: map[string]Term{}, globalVal: map[*ssa.Global]Value{},
+		candActive: cands, candFail: map[CandKey]bool{}}
+	res.candFail = fx.candFail
 	fx.brk0 = enc.Decl("brk0", "Int")
 	enc.Assume(Gt(fx.brk0, "1000000"))
 	defer func() {
